@@ -265,7 +265,7 @@ def _case(s, mode, qq):
     if mode == "keep" or not s:
         return s
     inq, _ = quote_states(s, 0, qq)
-    f = str.upper if mode == "upper" else str.lower
+    f = {"upper": str.upper, "lower": str.lower}.get(mode, str.swapcase)
     return "".join(ch if (inq[i] or not ch.isascii()) else f(ch) for i, ch in enumerate(s))
 
 
@@ -279,7 +279,7 @@ def _case_symbols(s, mode, qq, symset):
     if mode == "keep" or not s or not symset:
         return s
     inq, _ = quote_states(s, 0, qq)
-    f = str.upper if mode == "upper" else str.lower
+    f = {"upper": str.upper, "lower": str.lower}.get(mode, str.swapcase)
     out = []
     last = 0
     for m in _TOKEN.finditer(s):
